@@ -57,6 +57,7 @@ OPS = [
     ("ln", 0, "/x", 0, "/h", None), ("ln", 0, "/x", 0, "s", "soft"), ("ln", 0, "/d/y", 1, "/e", "soft"),
     ("create", None, None, 0, "/n", "a"), ("create", None, None, 0, "/x", "a"), ("create", None, None, 1, "/", "w"), ("create", None, None, 1, "/k", "a"),
     ("cp", 0, "/x", 0, "/d/y", None),   # destination occupied: must be refused, nothing changes
+    ("create", None, None, 0, "/", "a"), ("create", None, None, 1, "/", "a"),   # a root collection appended to a file that holds nested ones
 ]
 
 
@@ -133,7 +134,8 @@ def history_body(env, p):
     files = [scratch_file("c15_a.cool"), scratch_file("c15_b.cool")]
     m = Model()
     contents = {}
-    for tag in ("A", "B", "C", "D", "E"):
+    pool = ["D", "E", "F", "G"][:max(2, p["steps"])]     # one fresh content per possible create step
+    for tag in ["A", "B", "C"] + pool:
         contents[tag] = env_pixels(env, N, 1, prefix=f"{tag}_")
     # initial state: file 0 holds /x (A) and /d/y (B); file 1 optionally holds a root collection (C)
     env.build_cooler(files[0], bins, *contents["A"][:2], {"count": contents["A"][2]}, group="/x", mode="w")
@@ -145,7 +147,7 @@ def history_body(env, p):
     if p["second_file"]:
         env.build_cooler(files[1], bins, *contents["C"][:2], {"count": contents["C"][2]}, group="/", mode="w")
         m.files[files[1]] = {"/": ("node", m.new_node("C"))}
-    fresh = iter(["D", "E"])
+    fresh = iter(pool)
     trace = []
     for step in range(p["steps"]):
         k = env.choice(f"op{step}", len(OPS))
@@ -159,8 +161,6 @@ def history_body(env, p):
                     if (kind == "mv" and _norm(sg) == tgt) or (kind == "create" and _norm(dg) == tgt) or (kind == "create" and flag == "w") \
                             or (kind == "cp" and flag == "overwrite"):
                         env.assume(False)
-        if kind == "create" and _norm(dg) == "/" and flag != "w" and files[df] in m.files:
-            env.assume(False)
         tag = next(fresh) if kind == "create" else None
         import copy
         m2 = copy.deepcopy(m)
